@@ -76,8 +76,59 @@ def gen_sel(rng, n, cur, stale_stream):
     return new
 
 
+def gen_directed(rng):
+    """directed histories: A shown; B requested (slow command still running); the current item goes away (or changes)
+    while B runs; B requested again — the pane must end on B.  Catches dedupe keys that remember what was SENT
+    rather than what is SHOWN."""
+    kinds = rng.choice(["GG", "GG", "CC", "GC", "CG", "GGG"])
+    items = []
+    for k in kinds:
+        items.append("%s%dx%dx0x0x%d" % (k, rng.choice([10, 20, 30]), rng.choice([1, 2, 3]), 1 if rng.random() < 0.3 else 0))
+    a, b = 1, 2
+    mid = rng.choice([0, 0, 0, a, len(items)])
+    q = rng.randint(0, 3)
+    ops = ["r:%d:%d:-:_:0" % (a, q), "s", "r:%d:%d:-:_:0" % (b, q), "w%d" % rng.choice([1, 2, 4, 8]),
+           "r:%d:%d:-:_:0" % (mid, q), "w%d" % rng.choice([1, 2, 4, 8, 40]), "r:%d:%d:-:_:0" % (b, q), "s"]
+    g = "%dx%d" % (rng.choice([10, 20, 30]), rng.choice([1, 2]))
+    return "%s~%s~-~-|%s" % (",".join(items), g, " ".join(ops))
+
+
+def gen_endstate(rng):
+    """end-state stream: indices are the items' own indices (as in Model::draw_preview), so re-selecting an item gives
+    the same expanded command; only the final pane is judged"""
+    d = rng.choice([5, 10, 20, 30])
+    ops = []
+    k = rng.randint(1, 3)
+    for _ in range(rng.choice([2, 3, 4, 5, 7])):
+        r = rng.random()
+        if r < 0.25:
+            k2 = 0
+        elif r < 0.5:
+            k2 = k if k else rng.randint(1, 3)
+        else:
+            k2 = rng.randint(1, 3)
+        ops.append("r%d%s" % (k2, "f" if rng.random() < 0.08 else ""))
+        if k2:
+            k = k2
+        g = rng.choice([0, 0, 1, 3, 8, 15, 40, 60])
+        if g:
+            ops.append("w%d" % g)
+    if rng.random() < 0.6:
+        # A shown, B running, current item goes away, B again
+        a, b = rng.sample([1, 2, 3], 2)
+        ops = ["r%d" % a, "w60", "r%d" % b, "w%d" % rng.choice([1, 3, 8]), "r0", "w%d" % rng.choice([1, 5, 50]), "r%d" % b]
+    return "E~%d|%s" % (d, " ".join(ops))
+
+
 def gen(rng, tier, n):
     for ci in range(n):
+        r0 = rng.random()
+        if r0 < 0.12:
+            yield gen_directed(rng)
+            continue
+        if r0 < 0.22:
+            yield gen_endstate(rng)
+            continue
         items = gen_items(rng)
         ni = len(items)
         stale_stream = rng.random() < 0.04
@@ -128,6 +179,8 @@ def _parts(case):
 
 
 def nontrivial(case):
+    if case.startswith("E~"):
+        return case.count("r") >= 2
     hd, items, ops = _parts(case)
     reqs = 0
     pending_cmd = False
@@ -145,6 +198,8 @@ def nontrivial(case):
 
 
 def histogram_keys(case):
+    if case.startswith("E~"):
+        return ["end-state-stream"]
     hd, items, ops = _parts(case)
     reqs = [o for o in ops if o.startswith("r:")]
     ks = ["reqs<=%d" % b for b in (1, 3, 6, 12, 30) if len(reqs) <= b][:1] or ["reqs>30"]
